@@ -101,6 +101,15 @@ Definition prediction_segment (fit_type : string) (m : Z) : option string :=
 Definition mem_str (x : string) (l : list string) : bool := existsb (String.eqb x) l.
 Definition kept_segment (present : list Z) (s : seg) : bool :=
   existsb (fun m' => negb (Qle_bool (seg_weight s m') 0%Q)) present.
+(* segment_time_series(index, type, drop_zero_weight_segments): with the flag, only the columns whose weights sum to more
+   than zero over the index stay; `present` = the local months that occur in the index *)
+Definition dropped_table (present : list Z) (t : list seg) : list seg := filter (kept_segment present) t.
+Definition segment_weights_on (type : string) (drop : bool) (present : list Z) (m : Z) : option (list (string * Q)) :=
+  option_map (fun t => row_weights (if drop then dropped_table present t else t) m) (table_of type).
+(* the entries of a weight row that are above zero *)
+Definition positive_row (t : list seg) (m : Z) : list (string * Q) :=
+  filter (fun nw => negb (Qle_bool (snd nw) 0%Q)) (row_weights t m).
+
 Definition prediction_terms_on (present : list Z) (fitted : list string) (fit_type : string) (m : Z) : list (string * Q) :=
   match assoc fit_type prediction_info with
   | None => []
